@@ -97,6 +97,7 @@ class Program:
         self.var_nodes = {}       # qualname -> VarDecl node (namespace/static scope)
         self.derived = {}         # base qualname -> set(derived qualname)
         self.tu_of_node = {}
+        self.def_by_declloc = {}  # (file, line, col) of any declaration -> its definition
         for tu in self.tus:
             self._index_tu(tu)
         self._link_records()
@@ -241,6 +242,18 @@ class Program:
                 return
         self.functions[f.key] = f
         self.tu_of_node[id(n)] = tu
+        prev = n.get('previousDecl')
+        seen = 0
+        while prev and seen < 8:
+            pn = tu.ids.get(prev)
+            if pn is None:
+                break
+            pl = pn.get('loc')
+            if pl:
+                self.def_by_declloc[(pl[0], pl[1], pl[2])] = f
+            prev = pn.get('previousDecl')
+            seen += 1
+        self.def_by_declloc[(loc[0], loc[1], loc[2])] = f
 
     def _has_dependent(self, n):
         for x in walk(n):
@@ -456,6 +469,11 @@ class Program:
         f = self.functions.get(key)
         if f:
             return [f]
+        dl = d.get('loc')
+        if dl:
+            f = self.def_by_declloc.get((dl[0], dl[1], dl[2]))
+            if f is not None and f.qualname == qn:
+                return [f]
         # declaration whose definition spells the type differently
         c = self.by_name(qn)
         if len(c) == 1:
@@ -466,16 +484,32 @@ class Program:
             return c2
         return []
 
-    def overriders(self, cls, name, type_):
+    def overriders(self, cls, name, type_, decl=None):
         """All definitions of virtual `name` (with same param list) in cls and
-        its derived classes."""
+        its derived classes.  Parameter lists are compared on desugared
+        parameter types when the declaration node is given (the same type may
+        be spelled differently in declaration and definition)."""
         out = []
         sig = param_sig(type_)
+        csig = canon_sig(decl) if decl is not None else None
         for c in [cls] + sorted(self.all_derived(cls)):
-            for f in self.by_name(c + '::' + name):
-                if param_sig(f.type) == sig:
-                    out.append(f)
+            cands = self.by_name(c + '::' + name)
+            ex = [f for f in cands if param_sig(f.type) == sig]
+            if not ex and csig is not None:
+                ex = [f for f in cands if canon_sig(f.node) == csig]
+            out.extend(ex)
         return out
+
+
+def canon_sig(node):
+    """(desugared parameter types..., constness) of a function declaration."""
+    ps = []
+    for c in children(node):
+        if c.get('kind') == 'ParmVarDecl':
+            t = c.get('dtype') or c.get('type') or ''
+            ps.append(re.sub(r'\s+', '', t))
+    t = node.get('type') or ''
+    return (tuple(ps), bool(re.search(r'\)\s*const\b', t)))
 
 
 def param_sig(t):
